@@ -247,7 +247,7 @@ fn roc_cases(run: &mut Run, rng: &mut Rng, thorough: bool) {
     let mut rfc = 0u64;
     let mut rts = 0u64;
     let mut pairs = roc_pairs();
-    let step = if thorough { 1 } else { 16 };
+    let step = if thorough { 2 } else { 16 };
     for &roc in &rocs {
         let mut last = 0u32;
         while last <= 65535 { checked += roc_oracle(run, &mut c, roc, last as u16); rfc += rfc_oracle(run, &mut c, roc, last as u16); last += step; }
@@ -708,6 +708,6 @@ pub fn run(args: &Args) {
     let nw = if t { 3000 } else { 350 };
     for i in 0..nw { let prof = PROFILES[i % 4]; let c = wild_case(&mut rng, i, prof); emit(&mut run, "sessw", &c); }
     run.notes.insert("three_way".into(), serde_json::json!("shape/boundary/history cases are mirrored op by op on webrtc-srtp 0.17 contexts for cm80, cm32 and gcm (it has no NULL-cipher profile): protect bytes, unprotect results and acceptance must be equal"));
-    run.notes.insert("roc".into(), serde_json::json!("rocrow: estimate and update for all 65536 sequence numbers per (roc,last) line, run-length encoded, compared with the model; the window oracle runs on the implementation for every `last` (thorough) / every 16th + boundary pool (quick)"));
+    run.notes.insert("roc".into(), serde_json::json!("rocrow: estimate and update for all 65536 sequence numbers per (roc,last) line, run-length encoded, compared with the model; the window oracle and the RFC 3711 guess oracle run on the implementation for every 2nd `last` (thorough) / every 16th (quick) + the boundary pool; real sender→receiver round trips at every change point of the estimate row and of the RFC row and at distances 0,±1,±2,±32766..±32769"));
     run.finish();
 }
